@@ -21,7 +21,7 @@ RULE = ("(repro) generated programs of up to 8 operations from {construct(type, 
         "parameters of every network are bit-identical to the snapshot and requires_grad is still False; mutating ops (fit, "
         "reinitialise, load) refresh the snapshot. Non-trivial = (repro) program contains a fit and a sampling op; (readonly) >= 4 "
         "distinct read-only ops.")
-RULE_EXT = ('Extended as built: seed forms (positional / keyword / numpy integer / cpu+gpu flags / defaults), SWAP observables, seed sensitivity also after loading an older file, read-only programs on states with a non-zero phase auxiliary bias.')
+RULE_EXT = ('Extended as built: seed forms (positional / keyword / numpy integer / cpu+gpu flags / defaults), SWAP observables, seed sensitivity also after loading an older file, read-only programs on states with a non-zero phase auxiliary bias. Rounds 5-6: enumerated basis states used as start chains with overwrite=True (the enumeration asked for afterwards is part of the output); the same seeded statistics call with the same caller-held chains twice; boundary seeds 0, 1, 2^32-1.')
 RULE = RULE + " " + RULE_EXT
 ASSUMPTIONS = ["CPU generator only (set_random_seed(cpu=True)); a single process", "bitwise comparison (torch.equal / ==)"]
 
@@ -72,13 +72,15 @@ def programs(draw, tier):
             ops.append({"op": k, "k": draw(st.integers(0, 3)), "m": draw(st.integers(1, 5))})
         elif k == "statistics":
             ops.append({"op": k, "obs": draw(st.lists(st.sampled_from(OBSN), min_size=1, max_size=2, unique=True)), "system": draw(st.booleans()),
-                        "num_samples": draw(st.integers(2, 8)), "num_chains": draw(st.integers(0, 4)), "burn_in": draw(st.integers(0, 2)), "steps": draw(st.integers(0, 2))})
+                        "num_samples": draw(st.integers(2, 8)), "num_chains": draw(st.integers(0, 4)), "burn_in": draw(st.integers(0, 2)), "steps": draw(st.integers(0, 2)),
+                        "same_chains_twice": draw(st.booleans())})
         elif k == "fit":
             ops.append({"op": k, "N": draw(st.integers(2, 6)), "pbs": draw(st.integers(1, 4)), "nbs": draw(st.one_of(st.none(), st.integers(1, 4))),
                         "k": draw(st.integers(0, 2)), "epochs": draw(st.integers(1, 2))})
         else:
             ops.append({"op": k})
-    return {"ops": ops, "seed": draw(st.integers(0, 2 ** 32 - 1)), "seed2": draw(st.integers(0, 2 ** 32 - 1)),
+    seeds = st.one_of(st.sampled_from([0, 1, 2 ** 32 - 1]), st.integers(0, 2 ** 32 - 1), st.integers(0, 2 ** 32 - 1), st.integers(0, 2 ** 32 - 1))   # the boundary seeds are ordinary seeds
+    return {"ops": ops, "seed": draw(seeds), "seed2": draw(seeds),
             "np_seeds": [draw(st.integers(0, 2 ** 31 - 1)) for _ in range(2)], "consume": draw(st.integers(0, 5)),
             "seed_form": draw(st.sampled_from(["explicit", "explicit", "default", "cpu_gpu", "gpu_positional", "numpy_int", "keyword"]))}
 
@@ -136,6 +138,17 @@ def run_program(ops, seed, tmp, form="explicit"):
                 outs.append(System(*obs).statistics(state, **kw))
             else:
                 outs.append([o.statistics(state, **kw) for o in obs])
+            if op.get("same_chains_twice"):
+                # the same seeded call with the same arguments (start chains the caller holds, overwrite left at its default) twice
+                x = state.sample(1, num_samples=max(op["num_chains"], 1))
+                kw2 = dict(kw, initial_state=x)
+                seed_lib(seed + 17, form)
+                r1 = System(*obs).statistics(state, **kw2) if op["system"] else [o.statistics(state, **kw2) for o in obs]
+                seed_lib(seed + 17, form)
+                r2 = System(*obs).statistics(state, **kw2) if op["system"] else [o.statistics(state, **kw2) for o in obs]
+                require(deep_equal(r1, r2), "not-reproducible:statistics-same-arguments",
+                        "statistics called twice with the same seed and the same arguments (start chains given, overwrite=False) gave different results")
+                outs[-1] = [outs[-1], r1]
         elif k == "fit":
             data, bases = train_data(state.num_visible, op["N"])
             kw = {"input_bases": bases} if len(state.networks) > 1 else {}
